@@ -151,6 +151,8 @@ def run(ctx: Context, col) -> None:
             pos = {}
             for k in range(1, len(parts)):
                 p_, prev = parts[k], parts[k - 1]
+                while p_[0] == "app" and p_[1] in ("int", "float", "item", ".item") and len(p_[2]) == 1:
+                    p_ = p_[2][0]  # int(x) / float(x) of the index: the same index
                 if p_[0] == "elem" and len(p_[2]) == 1 and p_[2][0] in (K(0), K(1)) and prev[0] == "const" and isinstance(prev[1], str):
                     word = prev[1].rstrip().rsplit(" ", 1)[-1].lower()
                     pos[word] = (p_[1], p_[2][0])
